@@ -351,40 +351,36 @@ func (m *model) plan(spec *ModSpec, name string) *plan {
 	return p
 }
 
-// dataFailure returns the index of the first out-of-bounds active data segment, or -1.
-func (m *model) dataFailure(in *mInst) int {
-	for i, d := range in.spec.Datas {
-		off, _, _ := m.evalExpr(in, d.Off)
-		if uint64(uint32(off))+uint64(len(d.Bytes)) > in.mem.bytes() {
-			return i
-		}
+// reject records an instantiation that failed before anything was written (link failure).
+func (m *model) reject() {
+	if m.okInst > 0 {
+		m.failAfter = true
 	}
-	return -1
 }
 
-// commit applies the effects of the instantiation up to the given stage:
+// run applies the instantiation of the candidate instance as the specification prescribes once
+// all imports matched — active element segments in order, active data segments in order, start
+// function — and returns where it ends:
 //
-//	"link"  the instantiation failed before anything was written
-//	"elem"  it failed at the first out-of-bounds element segment
-//	"data"  it failed at the first out-of-bounds data segment
-//	"start" the start function trapped
-//	"ok"    success
+//	"elem"  at the first out-of-bounds element segment (table.init traps before writing)
+//	"data"  at the first out-of-bounds data segment (memory.init traps before writing)
+//	"start" the start function trapped (its writes up to the trap persist)
+//	"ok"    success: the instance is registered
 //
-// Order per the specification: active element segments, then active data segments, then start.
-func (m *model) commit(p *plan, stage string) {
-	if stage == "link" || p.inst == nil {
-		if m.okInst > 0 {
-			m.failAfter = true
-		}
-		return
-	}
+// Everything written before the failing point persists; the functions of a failed instance may
+// live on in shared tables and operate on its (otherwise unreachable) objects.
+func (m *model) run(p *plan) string {
 	in := p.inst
 	who := in.name
+	fail := func(stage string) string {
+		m.reject()
+		return stage
+	}
 	for _, e := range in.spec.Elems {
 		off, _, _ := m.evalExpr(in, e.Off)
 		t := in.tables[e.Table]
 		if uint64(uint32(off))+uint64(len(e.Items)) > uint64(t.size()) {
-			break // table.init traps before writing anything: instantiation fails here (stage "elem")
+			return fail("elem")
 		}
 		for j, it := range e.Items {
 			lo, _, fn := m.evalExpr(in, it)
@@ -396,18 +392,11 @@ func (m *model) commit(p *plan, stage string) {
 		}
 		t.lastW = who
 	}
-	if stage == "elem" {
-		if m.okInst > 0 {
-			m.failAfter = true
-		}
-		return
-	}
-	fail := m.dataFailure(in)
-	for i, d := range in.spec.Datas {
-		if i == fail {
-			break
-		}
+	for _, d := range in.spec.Datas {
 		off, _, _ := m.evalExpr(in, d.Off)
+		if uint64(uint32(off))+uint64(len(d.Bytes)) > in.mem.bytes() {
+			return fail("data")
+		}
 		for j, b := range d.Bytes {
 			in.mem.b[uint32(off)+uint32(j)] = b
 		}
@@ -415,20 +404,10 @@ func (m *model) commit(p *plan, stage string) {
 			in.mem.lastW = who
 		}
 	}
-	if stage == "data" {
-		if m.okInst > 0 {
-			m.failAfter = true
+	if st := in.spec.Start; st != nil {
+		if tr := m.runOps(in, st.Ops); tr != "" || st.Trap {
+			return fail("start")
 		}
-		return
-	}
-	if in.spec.Start != nil {
-		m.runOps(in, in.spec.Start.Ops)
-	}
-	if stage == "start" {
-		if m.okInst > 0 {
-			m.failAfter = true
-		}
-		return
 	}
 	m.live[in.name] = in
 	m.order = append(m.order, in.name)
@@ -436,52 +415,7 @@ func (m *model) commit(p *plan, stage string) {
 	for _, im := range in.spec.Imports {
 		m.sharedKind[im.Kind] = true
 	}
-}
-
-// postLinkStage is what the specification prescribes once all imports matched.
-func (m *model) postLinkStage(p *plan) string {
-	in := p.inst
-	if p.elemOOB >= 0 {
-		return "elem"
-	}
-	if len(in.spec.Datas) > 0 && m.dataFailure(in) >= 0 {
-		return "data"
-	}
-	if st := in.spec.Start; st != nil {
-		if st.Trap || m.opsTrap(in, st.Ops) {
-			return "start"
-		}
-	}
 	return "ok"
-}
-
-// opsTrap predicts (without writing) whether the start function's ops trap. Because ops
-// can depend on each other (mgrow then minc) it runs them on a throw-away copy of the few
-// things they can change: memory size and table sizes do not shrink, so only mgrow matters.
-func (m *model) opsTrap(in *mInst, ops []Op) bool {
-	pages := uint32(0)
-	if in.mem != nil {
-		pages = in.mem.pages
-	}
-	for _, o := range ops {
-		switch o.K {
-		case "minc":
-			if uint64(uint32(o.A)) >= uint64(pages)*pageSize {
-				return true
-			}
-		case "mgrow":
-			if pages+1 <= in.mem.effMax {
-				pages++
-			}
-		case "tset":
-			if uint64(uint32(o.C)) >= uint64(len(in.ftab)) || uint64(uint32(o.B)) >= uint64(in.tables[o.A].size()) {
-				return true
-			}
-		case "trap":
-			return true
-		}
-	}
-	return false
 }
 
 // runOps executes ops in the context of instance in; it returns a trap message or "".
@@ -526,6 +460,10 @@ func (m *model) runOps(in *mInst, ops []Op) string {
 			}
 			t.fn[uint32(o.B)] = in.ftab[uint32(o.C)]
 			t.lastW = in.name
+		case "call":
+			if _, tr := m.callFunc(in.funcs[o.A]); tr != "" {
+				return tr
+			}
 		case "trap":
 			return trapUnreach
 		}
@@ -640,10 +578,10 @@ func (m *model) eval(s Step) mres {
 	who := in.name
 	a := s.Args
 	acc := s.Acc
-	needG := strings.HasPrefix(acc, "g") || acc == "hgget" || acc == "higet" || acc == "hgset"
+	needG := (strings.HasPrefix(acc, "g") && acc != "gxcall") || acc == "hgget" || acc == "higet" || acc == "hgset"
 	needT := strings.HasPrefix(acc, "t") || acc == "htl"
 	needM := strings.HasPrefix(acc, "load") || strings.HasPrefix(acc, "store") || strings.HasPrefix(acc, "m") || strings.HasPrefix(acc, "hm") || acc == "xcall"
-	needF := acc == "call" || acc == "xcall" || acc == "hfcall"
+	needF := acc == "call" || acc == "xcall" || acc == "hfcall" || acc == "gxcall"
 	if s.Idx < 0 || (needG && s.Idx >= len(in.globals)) || (needT && s.Idx >= len(in.tables)) || (needM && in.mem == nil) || (needF && s.Idx >= len(in.funcs)) {
 		return mres{skip: true}
 	}
@@ -865,6 +803,18 @@ func (m *model) eval(s Step) mres {
 		f := in.funcs[s.Idx]
 		v, tr := m.callFunc(f)
 		return mres{vals: v, mask: sigMask(f.sig), trap: tr}
+	case "gxcall":
+		if s.Sig < 0 || s.Sig >= len(in.globals) || !isNum(in.globals[s.Sig].vt) {
+			return mres{skip: true}
+		}
+		gl := in.globals[s.Sig]
+		k := maskOf(gl.vt)
+		pre := gl.lo & k
+		if _, tr := m.callFunc(in.funcs[s.Idx]); tr != "" {
+			return mres{trap: tr}
+		}
+		m.read(who, gl.lastW)
+		return mres{vals: []uint64{pre, gl.lo & k}, mask: []uint64{k, k}}
 	case "xcall":
 		ad := arg(a, 0) & 0xffffffff
 		if ad >= mm.bytes() {
